@@ -31,6 +31,7 @@ type item struct {
 	w     *world
 	shape *vpShape
 	group string
+	donor *vpShape // validated first, in the same process, under the same voteproof ID (validation must be stateless)
 	// results
 	term   string
 	wf, vs bool
@@ -48,9 +49,11 @@ type item struct {
 }
 
 type replay struct {
-	N int      `json:"n"`
-	A *vpShape `json:"a"`
-	B *vpShape `json:"b,omitempty"`
+	N      int      `json:"n"`
+	A      *vpShape `json:"a"`
+	B      *vpShape `json:"b,omitempty"`
+	DonorA *vpShape `json:"donor_a,omitempty"` // validated before A / B in the same process (same voteproof ID)
+	DonorB *vpShape `json:"donor_b,omitempty"`
 }
 
 func (it *item) eval() {
@@ -60,7 +63,15 @@ func (it *item) eval() {
 		}
 	}()
 	w := it.w
+	if it.donor != nil {
+		d := w.build(it.donor)
+		_ = d.vp.IsValid(w.net)
+		_ = isaac.IsValidVoteproofWithSuffrage(d.vp, w.suf)
+	}
 	b := w.build(it.shape)
+	if it.shape.ID != "" && b.vp.ID() != it.shape.ID {
+		panic("voteproof ID not set")
+	}
 	it.term = w.coqVP(it.shape, b)
 	vp := b.vp
 	it.wf = vp.IsValid(w.net) == nil
@@ -138,11 +149,11 @@ func main() {
 		if err := vh.ReadReplay(o.Replay, &rp); err != nil {
 			panic(err)
 		}
-		for _, s := range []*vpShape{rp.A, rp.B} {
+		for i, s := range []*vpShape{rp.A, rp.B} {
 			if s == nil || rp.N < 1 || rp.N > 7 {
 				continue
 			}
-			it := &item{w: worlds[rp.N], shape: s}
+			it := &item{w: worlds[rp.N], shape: s, donor: []*vpShape{rp.DonorA, rp.DonorB}[i]}
 			it.eval()
 			fmt.Printf("replay n=%d tag=%s: IsValid ok=%v IsValidVoteproofWithSuffrage ok=%v majority=%s panic=%q\n", rp.N, s.Tag, it.wf, it.vs, it.majority, it.panicv)
 		}
@@ -164,22 +175,59 @@ func main() {
 	genRandom(o, r, add)
 
 	// evaluate on the real code, in parallel (signature checks dominate)
-	var wg sync.WaitGroup
-	ch := make(chan *item, 256)
-	for i := 0; i < runtime.NumCPU(); i++ {
-		wg.Add(1)
-		go func() {
-			defer wg.Done()
-			for it := range ch {
-				it.eval()
-			}
-		}()
+	runAll := func(list []*item) {
+		var wg sync.WaitGroup
+		ch := make(chan *item, 256)
+		for i := 0; i < runtime.NumCPU(); i++ {
+			wg.Add(1)
+			go func() {
+				defer wg.Done()
+				for it := range ch {
+					it.eval()
+				}
+			}()
+		}
+		for _, it := range list {
+			ch <- it
+		}
+		close(ch)
+		wg.Wait()
 	}
+	runAll(items)
+
+	// history phase: validation has to be stateless.  Every selected shape the real code rejected is validated again
+	// right after an accepted voteproof of the same suffrage, carrying that voteproof's ID (the ID is a free string
+	// serialised with the voteproof); the verdicts are compared with the model like any other case and the voteproofs
+	// accepted here join the pair search.
+	donors := map[string]*vpShape{}
 	for _, it := range items {
-		ch <- it
+		if it.panicv == "" && it.accepted && it.majority != "" {
+			k := fmt.Sprintf("%d/%v", it.w.n, it.shape.Acc)
+			if _, ok := donors[k]; !ok {
+				donors[k] = it.shape
+			}
+		}
 	}
-	close(ch)
-	wg.Wait()
+	var second []*item
+	budget := o.Pick(1500, 20000)
+	for pass := 0; pass < 2; pass++ { // first the shapes only the suffrage check rejects, then the others
+		for _, it := range items {
+			if it.panicv != "" || it.accepted || (pass == 0) != (it.wf && !it.vs) || len(second) >= budget {
+				continue
+			}
+			d, ok := donors[fmt.Sprintf("%d/%v", it.w.n, it.shape.Acc)]
+			if !ok {
+				continue
+			}
+			id := fmt.Sprintf("c03-shared-id-%d", len(second))
+			dc, sc := *d, *it.shape
+			dc.ID, sc.ID = id, id
+			sc.Tag += "/same-id-after:" + d.Tag
+			second = append(second, &item{w: it.w, shape: &sc, group: "same-id-after-valid", donor: &dc})
+		}
+	}
+	runAll(second)
+	items = append(items, second...)
 
 	hdr := "From MV Require Import C03.Model.\n"
 	sufTerm := map[int]string{}
@@ -199,7 +247,7 @@ func main() {
 		res.Dist(fmt.Sprintf("%s/accepted=%v", it.group, it.accepted))
 		res.Dist(fmt.Sprintf("n=%d", n))
 		cases.Add(fmt.Sprintf("CVp %s %s %s %s", sufTerm[n], it.term, vh.Bool(it.wf), vh.Bool(it.vs)),
-			map[string]any{"n": n, "shape": it.shape, "impl_isvalid": it.wf, "impl_withsuffrage": it.vs})
+			map[string]any{"n": n, "shape": it.shape, "validated_first_with_same_id": it.donor, "impl_isvalid": it.wf, "impl_withsuffrage": it.vs})
 		if it.accepted && it.majority != "" {
 			res.Sample(map[string]any{"n": n, "tag": it.shape.Tag, "kind": it.shape.Kind, "accepted": true, "sfs": len(it.shape.SFs), "expels": len(it.shape.Expels)})
 		}
@@ -272,7 +320,7 @@ func main() {
 				seenClass[cl]++
 				if seenClass[cl] <= 40 {
 					res.Fail(cl, fmt.Sprintf("n=%d t=%d.%d point=%s: two voteproofs accepted by IsValid and IsValidVoteproofWithSuffrage carry different majority facts with %d equivocating node(s) <= f=%d (%s | %s)",
-						n, kmin/10, kmin%10, k.pt, eq, fExact(n, kmin), a.shape.Tag, b.shape.Tag), replay{N: k.n, A: a.shape, B: b.shape})
+						n, kmin/10, kmin%10, k.pt, eq, fExact(n, kmin), a.shape.Tag, b.shape.Tag), replay{N: k.n, A: a.shape, B: b.shape, DonorA: a.donor, DonorB: b.donor})
 				} else {
 					res.Distribution["oracle_fail:"+cl]++
 				}
